@@ -35,3 +35,21 @@ def c08_children(cx, man, chk):
     cx.cov.setdefault('extra', {})['child_process_runs'] = {
         'runs': len(runs), 'not_ok': sum(1 for r in runs if r['status'] != 'ok'),
         'max_seconds': max([r['seconds'] for r in runs] or [0]), 'samples': runs[:4]}
+
+
+def f32_assumptions(cx, man, chk):
+    """validate the named f32 hypotheses of TextDefs.WTextOk against Rust's f32 on the weight domain [0,1]:
+    quick = every 4099th bit pattern (259,906 weights), thorough = all 1,065,353,217"""
+    step = '1' if cx.tier == 'thorough' else '4099'
+    t0 = time.time()
+    p = subprocess.run([chk.harness_bin('release'), 'f32sweep', step], stdout=subprocess.PIPE, stderr=subprocess.PIPE)
+    out = p.stdout.decode('utf-8', 'replace').strip()
+    m = re.search(r'checked=(\d+) bad=(\d+) empty_is_err=(\d) product_sample_bad=(\d+)', out)
+    info = {'step': int(step), 'seconds': round(time.time() - t0, 1), 'output': out[:400]}
+    if not m or p.returncode != 0:
+        cx.broken.append(('assumption', 'f32 sweep did not run', out[-300:]))
+    else:
+        info.update({'weights_checked': int(m.group(1)), 'bad': int(m.group(2)), 'empty_text_is_error': m.group(3) == '1', 'product_sample_bad': int(m.group(4))})
+        if int(m.group(2)) or m.group(3) != '1' or int(m.group(4)):
+            cx.broken.append(('assumption', 'a named f32 hypothesis (WTextOk / product closure) fails on Rust f32', out[:400]))
+    cx.cov.setdefault('extra', {})['f32_assumption_sweep'] = info
